@@ -18,6 +18,8 @@
    lists; proof creation with hash / seek / upgrade requests is not covered by a theorem. Both are covered on
    every run by tools/c09.py: boundary request tuples on six core shapes, structurally arbitrary proofs and the
    C04 alteration set, under catch_unwind + watchdog in a build with overflow checks, compared with the model. *)
+From HC Require AnyProofCorEx.
+From HC Require Import AnyProofLib AnyProof AnyProofCorLib AnyProofCor.
 From HC Require Import Core SoundCoreLib SoundCore ReplicaCor ReplicaCorA.
 From HC Require Import Core NoPanic2.
 From HC Require Import Base NMap Codec CodecFacts Crypto FlatTree Storage Oplog Merkle NoPanic.
@@ -208,6 +210,131 @@ Theorem C09_apply_outcome_classified :
          Sound.some_collision cr \/ forged_signature cr bs (kp_public (c_keypair c)).
 Proof. exact apply_replica_outcome. Qed.
 
+Theorem C09_any_history_create_proof_returns :
+  forall cr : crypto,
+         (forall x : bytes, Datatypes.length (cr_hash cr x) = 32%nat) ->
+         forall bs : list bytes,
+         writer_fits bs ->
+         forall (ops : list EventsAvail.op) (c : core) (w : world) (c' : core) (w' : world) 
+           (oks : list bool) (block hash : option req_block) (seek : option req_seek)
+           (upgrade : option req_upgrade) (c2 : core) (w2 : world) (r : res (option proof)),
+         HInv cr bs c (w_disk w) ->
+         sig_ok (c_tree c) ->
+         kp_secret (c_keypair c) = None ->
+         N.of_nat (Datatypes.length bs) < LIM ->
+         Forall (any_op cr) ops ->
+         EventsAvail.run_ops cr ops c w = (c', w', oks) ->
+         rblock_lim block = true ->
+         rblock_lim hash = true ->
+         rupgrade_lim upgrade = true ->
+         core_create_proof block hash seek upgrade c' w' = (c2, w2, r) ->
+         returns r = true /\ c2 = c' /\ w_disk w2 = w_disk w' /\ w_journal w2 = w_journal w' \/
+         Sound.some_collision cr \/ forged_signature cr bs (kp_public (c_keypair c)).
+Proof. exact any_history_create_proof_returns. Qed.
+
+Theorem C09_fresh_any_history_create_proof_returns :
+  forall cr : crypto,
+         (forall x : bytes, Datatypes.length (cr_hash cr x) = 32%nat) ->
+         (forall x : bytes, all_zero (cr_hash cr x) = false) ->
+         forall bs : list bytes,
+         writer_fits bs ->
+         forall (kp : keypair) (ops : list EventsAvail.op) (block hash : option req_block)
+           (seek : option req_seek) (upgrade : option req_upgrade),
+         len (enc_header (header_new kp)) < 1073741824 ->
+         kp_secret kp = None ->
+         N.of_nat (Datatypes.length bs) < LIM ->
+         Forall (any_op cr) ops ->
+         rblock_lim block = true ->
+         rblock_lim hash = true ->
+         rupgrade_lim upgrade = true ->
+         exists (d0 : disk) (ops0 : list sop) (c0 : core),
+           core_open cr (Some kp) false disk_empty = (d0, ops0, Ok c0) /\
+           (forall (j : list sop) (ev : list event) (c' : core) (w' : world) (oks : list bool) 
+              (c2 : core) (w2 : world) (r : res (option proof)),
+            EventsAvail.run_ops cr ops c0 {| w_disk := d0; w_journal := j; w_events := ev |} = (c', w', oks) ->
+            core_create_proof block hash seek upgrade c' w' = (c2, w2, r) ->
+            returns r = true /\ c2 = c' /\ w_disk w2 = w_disk w' /\ w_journal w2 = w_journal w' \/
+            Sound.some_collision cr \/ forged_signature cr bs (kp_public kp)).
+Proof. exact fresh_any_history_create_proof_returns. Qed.
+
+Theorem C09_apply_any_outcome :
+  forall cr : crypto,
+         (forall x : bytes, Datatypes.length (cr_hash cr x) = 32%nat) ->
+         (forall x : bytes, all_zero (cr_hash cr x) = false) ->
+         forall bs : list bytes,
+         writer_fits bs ->
+         forall (f : option bool) (pf : proof) (c : core) (w : world) (c' : core) (w' : world) (r : res bool),
+         HInv cr bs c (w_disk w) ->
+         proof_wire pf ->
+         core_apply_proof cr f pf c w = (c', w', r) ->
+         r = Ok true /\ HInv cr bs c' (w_disk w') \/
+         c' = c /\ w' = w /\ unchanged_outcome cr pf c w r \/
+         r = Panic Refine.frame_msg /\ HInv cr bs c' (w_disk w') \/
+         Sound.some_collision cr \/ forged_signature cr bs (kp_public (c_keypair c)).
+Proof. exact apply_any_outcome. Qed.
+
+Theorem C09_apply_any_returns :
+  forall cr : crypto,
+         (forall x : bytes, Datatypes.length (cr_hash cr x) = 32%nat) ->
+         (forall x : bytes, all_zero (cr_hash cr x) = false) ->
+         forall bs : list bytes,
+         writer_fits bs ->
+         forall (f : option bool) (pf : proof) (c : core) (w : world) (c' : core) (w' : world) (r : res bool),
+         HInv cr bs c (w_disk w) ->
+         N.of_nat (Datatypes.length bs) < LIM ->
+         proof_wire pf ->
+         block_lim (p_block pf) = true ->
+         hash_lim (p_hash pf) = true ->
+         seek_lim (p_seek pf) = true ->
+         upgrade_nodes_lim pf ->
+         announced_sizes_fit_any c pf ->
+         core_apply_proof cr f pf c w = (c', w', r) ->
+         returns r = true \/
+         r = Panic Refine.frame_msg \/
+         Sound.some_collision cr \/ forged_signature cr bs (kp_public (c_keypair c)).
+Proof. exact apply_any_returns. Qed.
+
+Theorem C09_any_history_apply_returns :
+  forall cr : crypto,
+         (forall x : bytes, Datatypes.length (cr_hash cr x) = 32%nat) ->
+         (forall x : bytes, all_zero (cr_hash cr x) = false) ->
+         forall bs : list bytes,
+         writer_fits bs ->
+         forall (ops : list EventsAvail.op) (c : core) (w : world) (c1 : core) (w1 : world) 
+           (oks : list bool) (f : option bool) (pf : proof) (c' : core) (w' : world) 
+           (r : res bool),
+         HInv cr bs c (w_disk w) ->
+         kp_secret (c_keypair c) = None ->
+         N.of_nat (Datatypes.length bs) < LIM ->
+         Forall (any_op cr) ops ->
+         EventsAvail.run_ops cr ops c w = (c1, w1, oks) ->
+         proof_wire pf ->
+         block_lim (p_block pf) = true ->
+         hash_lim (p_hash pf) = true ->
+         seek_lim (p_seek pf) = true ->
+         upgrade_nodes_lim pf ->
+         announced_sizes_fit_any c1 pf ->
+         core_apply_proof cr f pf c1 w1 = (c', w', r) ->
+         returns r = true \/
+         r = Panic Refine.frame_msg \/
+         Sound.some_collision cr \/ forged_signature cr bs (kp_public (c_keypair c)).
+Proof. exact any_history_apply_returns. Qed.
+
+Theorem C09_block_offset_returns_any :
+  forall cr : crypto,
+         (forall x : bytes, Datatypes.length (cr_hash cr x) = 32%nat) ->
+         forall bs : list bytes,
+         writer_fits bs ->
+         forall (pf : proof) (c : core) (w : world) (b : data_block) (cs : changeset),
+         HInv cr bs c (w_disk w) ->
+         N.of_nat (Datatypes.length bs) < LIM ->
+         proof_wire pf ->
+         p_block pf = Some b ->
+         verifier_says cr c w pf = Ok cs ->
+         returns (byte_offset_in_changeset (c_tree c) (d_tree (w_disk w)) (db_index b) cs) = true \/
+         Sound.some_collision cr \/ forged_signature cr bs (kp_public (c_keypair c)).
+Proof. exact hinv_block_offset_returns. Qed.
+
 Print Assumptions C09_verify_returns_without_upgrade.
 Print Assumptions C09_verify_tree_returns.
 Print Assumptions C09_verify_never_panics.
@@ -236,3 +363,12 @@ Print Assumptions C09_create_proof_returns_on_replicas.
 Print Assumptions C09_create_proof_returns_after_replica_histories.
 Print Assumptions C09_apply_returns_on_replicas.
 Print Assumptions C09_apply_outcome_classified.
+Print Assumptions C09_any_history_create_proof_returns.
+Print Assumptions C09_fresh_any_history_create_proof_returns.
+Print Assumptions C09_apply_any_outcome.
+Print Assumptions C09_apply_any_returns.
+Print Assumptions C09_any_history_apply_returns.
+Print Assumptions C09_block_offset_returns_any.
+Print Assumptions AnyProofCorEx.sc_any_history_applies.
+Print Assumptions AnyProofCorEx.sc_any_history_failed_apply_applies.
+Print Assumptions AnyProofCorEx.sc_apply_any_returns_applies.
